@@ -167,6 +167,8 @@ package stack
 //@   ensures [initRejectsSlashWithoutDot C01] pkgDot(raw) == -2 ==> result != nil
 //@   ensures [initSplitsAtPackageDot C01] result == nil && pkgDot(raw) >= 0 ==> f.ImportPath == unescape(raw[:pkgDot(raw)]) && f.Complete == unescape(raw[:pkgDot(raw)]) + unescape(raw[pkgDot(raw):])
 //@   ensures [initNoDot C01] result == nil && pkgDot(raw) == -1 ==> f.ImportPath == old(f.ImportPath) && f.Complete == unescape(raw)
+//@   ensures [nameIsTheSymbolWithoutCreatorSuffix C01] result == nil ==> ((lastIndexByte(f.Complete[(pkgDot(raw) >= 0 ? len(f.ImportPath) : -1)+1:], 32) > -1 && lastIndexByte(f.Complete[(pkgDot(raw) >= 0 ? len(f.ImportPath) : -1)+1:], 32) >= 13 && f.Complete[(pkgDot(raw) >= 0 ? len(f.ImportPath) : -1)+1:][lastIndexByte(f.Complete[(pkgDot(raw) >= 0 ? len(f.ImportPath) : -1)+1:], 32)-13:lastIndexByte(f.Complete[(pkgDot(raw) >= 0 ? len(f.ImportPath) : -1)+1:], 32)] == " in goroutine") ? f.Name == f.Complete[(pkgDot(raw) >= 0 ? len(f.ImportPath) : -1)+1:][:lastIndexByte(f.Complete[(pkgDot(raw) >= 0 ? len(f.ImportPath) : -1)+1:], 32)-13] : f.Name == f.Complete[(pkgDot(raw) >= 0 ? len(f.ImportPath) : -1)+1:])
+//@   ensures [dirNameIsLastPathElement C01] result == nil ==> (lastIndexByte(f.ImportPath, 47) != -1 ? f.DirName == f.ImportPath[lastIndexByte(f.ImportPath, 47)+1:] : f.DirName == f.ImportPath)
 //@   ensures [initMainFlag C01] result == nil ==> (f.IsPkgMain <==> f.ImportPath == "main") || old(f.IsPkgMain)
 
 //@ func (*Call).init
